@@ -108,6 +108,8 @@ __CPROVER_assigns(g.drops, g.popped_done)
 __CPROVER_ensures(g.drops == OLD(g.drops) + 1 && g.popped_done == 1);
 void notify_one(int* cv) __CPROVER_requires(g_lock_held == 0 || 1) __CPROVER_assigns(g_notify_one) __CPROVER_ensures(g_notify_one == OLD(g_notify_one) + 1);
 void notify_all(int* cv) __CPROVER_assigns(g_notify_all) __CPROVER_ensures(g_notify_all == OLD(g_notify_all) + 1);
+/* Alive() as a callee: one complete critical section of its own (proved in job pool/Alive); what it returns may be stale as soon as it returns */
+static inline int Alive_cs(Pool* self) { MON_LOCK(&self->_m); int r = !g.stopped; MON_UNLOCK(&self->_m); return r; }
 /* private predicates and Stop(lock&&): proved in their own jobs, used by contract here */
 int WasStop(Pool* self) __CPROVER_assigns() __CPROVER_ensures(RET == (int)(self->_jobs_count & 1));
 int WantStop(Pool* self) __CPROVER_assigns() __CPROVER_ensures(RET == (int)((self->_jobs_count >> 1) & 1));
@@ -171,7 +173,7 @@ __CPROVER_ensures(g_lock_held == 0)
 __CPROVER_ensures(RET == !g.stopped)      /* decided under the lock */
 ''' % FRESH, '  int r = F_Alive(self);\n  if (r) VF_CANARY("alive"); else VF_CANARY("stopped");\n', 2, ['WasStop'], expect=[r'monitor invariant'])
     # Submit
-    c = rw('Submit').rewrite(expand_lock('Submit', b_submit.text))
+    c = rw('Submit', methods=['WasStop', 'WantStop', 'NoJobs', 'Alive']).rewrite(expand_lock('Submit', b_submit.text)).replace('Alive(self)', 'Alive_cs(self)')
     mk('Submit', b_submit, c, '''void F_Submit(Pool* self, Job* job)
 %s
 __CPROVER_requires(__CPROVER_is_fresh(job, sizeof(*job)) && g.pushed == job && g.pushes == 0 && g.drops == 0 && g_notify_one == 0)
